@@ -176,5 +176,5 @@ def run_case(case):
         "nontrivial": bool(active and n > 1),
         "outcome": f"{'active' if active else 'identity'}|{parity}|{'viol' if viol else 'ok'}",
         "viol": viol,
-        "worst_err": worst,
+        "metrics": {"worst_operator_error": worst},
     }
